@@ -563,6 +563,40 @@ func c09Large(x *mc.Exec) {
 	}
 }
 
+// c09IDs: listed ids select by exact string comparison: the empty id, ids with leading / trailing
+// blanks and their trimmed twins are different ids.
+func c09IDs(x *mc.Exec) {
+	impl := x.Choose(len(c09Impls), "implementation")
+	d := c09TypeD(kInt)
+	items := []c09Item{{"", 1, "m"}, {" a", 2, "m"}, {"a", 3, "z"}, {"a ", 4, "a"}, {"b", 5, "q"}, {"\ta\n", 6, "q"}}
+	lists := [][]string{{""}, {" a"}, {"a"}, {"a ", " a"}, {"", "b"}, {" "}, {"  a"}, {"\ta\n", "a"}, {"", " ", "b "}, {"A"}}
+	sel := lists[x.Choose(len(lists), "listed ids")]
+	col := c09Collection(impl, d, items)
+	var page j.Collection
+	p := Try(func() { page = j.Range(col, append([]string{}, sel...), nil, []string{"k"}, 100, 0) })
+	x.R.Add("transitions", 1)
+	desc := fmt.Sprintf("%s: ids %q listed over a collection with ids %q", c09Impls[impl], sel, []string{"", " a", "a", "a ", "b", "\ta\n"})
+	x.Render(desc)
+	x.R.Mark("nontrivial", mc.Hash(desc))
+	if p != "" || page == nil {
+		x.Fail("C09:ids:panic", "%s: Range panicked: %s", desc, p)
+		return
+	}
+	var want []string
+	for _, it := range items {
+		for _, id := range sel {
+			if id == it.id {
+				want = append(want, it.id)
+				break
+			}
+		}
+	}
+	got := idsOf(page)
+	if !(len(got) == 0 && len(want) == 0) && !reflect.DeepEqual(got, want) {
+		x.Fail("C09:ids:selection", "%s: Range returns %q, the listed ids select %q", desc, got, want)
+	}
+}
+
 // c09Sequence: results are retained across several Range calls and read only at
 // the end: a page handed out earlier must not be changed by later calls (a
 // recycled working buffer would do that).
@@ -602,7 +636,21 @@ func c09Sequence(x *mc.Exec) {
 	var wants [][]string
 	desc := c09Impls[impl] + ":"
 	for i := 0; i < 3; i++ {
-		c := menu[x.Choose(len(menu), "call")]
+		ci := x.Choose(len(menu)+1, "call")
+		if ci == len(menu) {
+			// between two calls a member of collection A changes (Set through the collection's
+			// own element): the next call sees the collection as it is now
+			for k := 0; k < colA.Len(); k++ {
+				if colA.At(k).Get("id") == "b" {
+					colA.At(k).Set("k", 99)
+					colA.At(k).Set("s", "zz")
+				}
+			}
+			itemsA[1].k, itemsA[1].s = 99, "zz"
+			desc += " b.k=99 b.s=zz in collection A;"
+			continue
+		}
+		c := menu[ci]
 		col := colA
 		if &c.items[0] == &itemsB[0] {
 			col = colB
@@ -645,11 +693,12 @@ func c09Sequence(x *mc.Exec) {
 func init() {
 	Register(&Prop{
 		ID: "C09",
-		Rule: "Engine A, all choices Full: (a) 28 kinds x 4 collection implementations (SoftCollection, WrapperCollection, Resources of soft / of wrapped resources) x every assignment of a 3-value alphabet of the kind (incl. nil for nullable kinds, values above 2^63 for uint64, for the 64-bit kinds a 5-value alphabet with 2^53 / 2^53+1 and MaxInt64 / MaxInt64-1, which collide as float64, byte strings [1 2]/[2 1]/[1 2 3], ties) to 3 (thorough 4) resources x all 31 rule lists of length <= 2 over {k,-k,s,id,-id} (incl. the empty list) and, inside each case, ALL initial orders of the collection and page sizes 1, 2, n with every page number; (b) 4 implementations x n in 0..4 x every ID subset (+ unknown/repeated ids) x 8 filters (incl. the empty and / or groups and an unknown operator) x 4 rule lists x 9 sizes (0,1,2,n,n+1,2^63-1,2^63,2^64-1,3) x 5 page numbers with number*size < 2^63. (d) 14-resource collections (beyond the 12-element insertion-sort threshold of sort.Sort) for 28 kinds x 4 implementations x 31 rule lists x 18 structured initial orders; (c) every sequence of 3 Range calls from a menu of 10 (three collections, one with ids made of digits, several page geometries, rule lists that are prefixes of one list the caller keeps) with all results retained and read only at the end. Oracle: independent select / filter / comparator (nil first, '-' reverses, later rules break ties) / slice; exact ID sequence and independence from the initial order when the rules contain id, otherwise sortedness + partition + page lengths; result non-nil, no panic, input collection unchanged. Non-trivial = every sort case; page cases that are neither empty nor complete",
+		Rule: "Engine A, all choices Full: (a) 28 kinds x 4 collection implementations (SoftCollection, WrapperCollection, Resources of soft / of wrapped resources) x every assignment of a 3-value alphabet of the kind (incl. nil for nullable kinds, values above 2^63 for uint64, for the 64-bit kinds a 5-value alphabet with 2^53 / 2^53+1 and MaxInt64 / MaxInt64-1, which collide as float64, byte strings [1 2]/[2 1]/[1 2 3], ties) to 3 (thorough 4) resources x all 31 rule lists of length <= 2 over {k,-k,s,id,-id} (incl. the empty list) and, inside each case, ALL initial orders of the collection and page sizes 1, 2, n with every page number; (b) 4 implementations x n in 0..4 x every ID subset (+ unknown/repeated ids) x 8 filters (incl. the empty and / or groups and an unknown operator) x 4 rule lists x 9 sizes (0,1,2,n,n+1,2^63-1,2^63,2^64-1,3) x 5 page numbers with number*size < 2^63. (d) 14-resource collections (beyond the 12-element insertion-sort threshold of sort.Sort) for 28 kinds x 4 implementations x 31 rule lists x 18 structured initial orders; (e) 10 id lists with empty, blank-padded and case-twin ids over a collection holding such ids; (c) every sequence of 3 steps, each a Range call from a menu of 10 or a change of one member's values, (three collections, one with ids made of digits, several page geometries, rule lists that are prefixes of one list the caller keeps) with all results retained and read only at the end. Oracle: independent select / filter / comparator (nil first, '-' reverses, later rules break ties) / slice; exact ID sequence and independence from the initial order when the rules contain id, otherwise sortedness + partition + page lengths; result non-nil, no panic, input collection unchanged. Non-trivial = every sort case; page cases that are neither empty nor complete",
 		Harnesses: []Harness{
 			{Name: "C09/sort", Body: c09Sort},
 			{Name: "C09/page", Body: c09Page},
 			{Name: "C09/sequence", Body: c09Sequence},
+			{Name: "C09/ids", Body: c09IDs},
 			{Name: "C09/large", Body: c09Large},
 		},
 	})
